@@ -238,13 +238,17 @@ func (c *c02Harness) eventOf(claim skytypes.EthereumClaim) c02Event {
 	return c02Event{}
 }
 
+// c02EventNonce: the bridge contract numbers ALL its events (EventNonce), the oracle orders the bridge events only (SkywayNonce);
+// the two differ on a real chain, so they differ here - a keeper that reads the wrong one orders claims wrongly
+func c02EventNonce(skywayNonce uint64) uint64 { return 3*skywayNonce + 1000 }
+
 func (c *c02Harness) msgOf(ev c02Event, orch sdk.AccAddress) sdk.Msg {
 	e := c.e
 	if ev.kind == "exec" {
-		return &skytypes.MsgBatchSendToRemoteClaim{EventNonce: ev.n, EthBlockHeight: ev.eth, BatchNonce: ev.batch, TokenContract: ev.token,
+		return &skytypes.MsgBatchSendToRemoteClaim{EventNonce: c02EventNonce(ev.n), EthBlockHeight: ev.eth, BatchNonce: ev.batch, TokenContract: ev.token,
 			ChainReferenceId: skyChain, Orchestrator: orch.String(), Metadata: e.meta(orch), SkywayNonce: ev.n, CompassId: c02Compass(ev.compass)}
 	}
-	return &skytypes.MsgSendToPalomaClaim{EventNonce: ev.n, EthBlockHeight: ev.eth, TokenContract: ev.token,
+	return &skytypes.MsgSendToPalomaClaim{EventNonce: c02EventNonce(ev.n), EthBlockHeight: ev.eth, TokenContract: ev.token,
 		Amount: sdkmath.NewInt(ev.amount), EthereumSender: ev.sender,
 		PalomaReceiver: e.users[ev.receiver].String(), Orchestrator: orch.String(), ChainReferenceId: skyChain, Metadata: e.meta(orch), SkywayNonce: ev.n, CompassId: c02Compass(ev.compass)}
 }
